@@ -770,11 +770,21 @@ func (t *tr) errSentinel(e ast.Expr) string {
 	if !ok {
 		t.fail(e, "returned error is not built by fmt.Errorf")
 	}
-	name, _ := t.callee(c)
+	name, fn := t.callee(c)
 	if name == "errors.New" {
 		return "ErrNoWrap"
 	}
 	if name != "fmt.Errorf" {
+		// an error-constructor helper of the package: a function whose only result is an error and whose body is one
+		// return statement; the error it builds wraps the same sentinel whatever its arguments
+		if fn != nil && fn.Pkg() == t.p.pkg && isErrorCtor(fn) {
+			if fd := t.p.funcDecl(fn); fd != nil && len(fd.Body.List) == 1 {
+				if rs, ok := fd.Body.List[0].(*ast.ReturnStmt); ok && len(rs.Results) == 1 {
+					return t.errSentinel(rs.Results[0])
+				}
+			}
+			t.fail(e, "error constructor %s is not a single return statement", name)
+		}
 		t.fail(e, "returned error is built by %s", name)
 	}
 	tv := t.p.info.Types[c.Args[0]]
@@ -805,6 +815,23 @@ func (t *tr) errSentinel(e ast.Expr) string {
 	}
 	t.fail(e, "wrapped error is not a package-level sentinel")
 	return ""
+}
+
+// func(...) error
+func isErrorCtor(fn *types.Func) bool {
+	sig, ok := fn.Type().(*types.Signature)
+	return ok && sig.Results().Len() == 1 && types.Identical(sig.Results().At(0).Type(), types.Universe.Lookup("error").Type())
+}
+
+func (p *pkgInfo) funcDecl(fn *types.Func) *ast.FuncDecl {
+	for _, f := range p.files {
+		for _, d := range f.Decls {
+			if fd, ok := d.(*ast.FuncDecl); ok && fd.Recv == nil && fd.Body != nil && p.info.Defs[fd.Name] == fn {
+				return fd
+			}
+		}
+	}
+	return nil
 }
 
 func (t *tr) stmts(list []ast.Stmt) string {
